@@ -9,6 +9,7 @@ import (
 	"errors"
 	"fmt"
 	"io"
+	"strings"
 	"sync"
 	"testing"
 	"time"
@@ -221,13 +222,13 @@ func sweepTransfer(idx int, tier string) KScenario {
 // ---------------------------------------------------------------- execution
 
 type tStreamState struct {
-	mu          sync.Mutex
-	wClosed     [2]bool  // writer side (0 = initiator->acceptor payload, 1 = back payload) called Close
-	wErr        [2]error // writer errors
-	rDone       [2]bool  // reader saw EOF at full length
-	rErr        [2]error
-	rGot        [2]int
-	id          int64
+	mu      sync.Mutex
+	wClosed [2]bool  // writer side (0 = initiator->acceptor payload, 1 = back payload) called Close
+	wErr    [2]error // writer errors
+	rDone   [2]bool  // reader saw EOF at full length
+	rErr    [2]error
+	rGot    [2]int
+	id      int64
 }
 
 func chunkSize(pattern int64, k int) int {
@@ -361,10 +362,10 @@ func runTransfer(t *testing.T, ksc KScenario, res *KResult) {
 	key := func(i, which int) uint64 { return KMix(sc.Seed, 0x57e, uint64(i), uint64(which)) }
 
 	type dg struct {
-		sent     bool
-		rcvd     int
-		sendErr  error
-		size     int
+		sent    bool
+		rcvd    int
+		sendErr error
+		size    int
 	}
 	dgs := make([]*dg, len(sc.Dgrams))
 	for i := range dgs {
@@ -673,6 +674,9 @@ func judgeFailure(w *World, sc *TransferScenario, res *KResult, cerr, serr error
 			}
 			if gap := time.Duration(w.starvedFor(side, now)); gap < idle-20*time.Millisecond {
 				res.Fail("idle timeout although undamaged datagrams kept arriving", "side %d: last good delivery %v before the failure, idle period %v", side, gap, idle)
+			} else if !w.pathDeadEvidence(now, int64(idle)) {
+				// nobody was prevented from talking: the endpoints fell silent with work left to do
+				res.Fail("connection idled out with transfers incomplete although the network delivered everything it was given", "side %d: no datagram was lost or damaged during the last idle period (%v) nor just before it", side, idle)
 			}
 		case errors.As(err, &he):
 			res.Probe("handshake-timeout")
@@ -683,6 +687,11 @@ func judgeFailure(w *World, sc *TransferScenario, res *KResult, cerr, serr error
 			who := side
 			if te.Remote {
 				who = 1 - side
+			}
+			if kf := wKnownC12(w, &sc.Cfg, who, uint64(te.ErrorCode)); kf != "" && !wOraclesEnabled("C01")["C12"] {
+				// a known finding of another property (C12) ended this run: neither passed nor violated here
+				res.Blocked = kf
+				continue
 			}
 			res.Fail(fmt.Sprintf("network faults alone made an endpoint raise a transport error: %s", wErrName(uint64(te.ErrorCode))), "raised by side %d (0 = client): %v", who, err)
 		case errors.As(err, &ae):
@@ -725,11 +734,82 @@ func hsIdle(cfg *WConfig, side int) time.Duration {
 	return 5 * time.Second
 }
 
-// starvedFor: time since the last undamaged datagram reached endpoint `side` (0 client, 1 server).
+// starvedFor: time since endpoint `side` (0 client, 1 server) provably processed a packet, measured at `now`.
+// Proof of processing = the endpoint itself acknowledged the packet: its idle period cannot have started before the
+// (first intact) delivery of a packet it has acknowledged. Everything else (duplicates, packets below the duplicate
+// horizon, packets without keys yet, Retry/VN) may or may not restart the period and is not counted.
 func (w *World) starvedFor(side int, now int64) int64 {
 	w.mu.Lock()
 	defer w.mu.Unlock()
-	return now - w.lastGood[side]
+	dirIn := 1 - side // packets travelling towards `side`
+	type key struct {
+		c  *TapConn
+		sp int
+	}
+	acked := map[key]map[int64]bool{}
+	for _, rec := range w.Log[side] { // datagrams sent by `side`
+		for _, p := range rec.Pkts {
+			if !p.Opened || p.Conn == nil || p.Conn.Shadow {
+				continue
+			}
+			for i := range p.Frames {
+				if f := &p.Frames[i]; f.Name == "ACK" {
+					k := key{p.Conn, p.Space()}
+					if acked[k] == nil {
+						acked[k] = map[int64]bool{}
+					}
+					for _, r := range f.Ranges {
+						for pn := r[0]; pn <= r[1] && pn-r[0] < 1<<16; pn++ {
+							acked[k][int64(pn)] = true
+						}
+					}
+				}
+			}
+		}
+	}
+	last := int64(0)
+	for _, rec := range w.Log[dirIn] {
+		if len(rec.Delivered) == 0 {
+			continue
+		}
+		for i, p := range rec.Pkts {
+			if p.Opened && p.Conn != nil && rec.PktState[i] == 0 && acked[key{p.Conn, p.Space()}][p.PN] && rec.Delivered[0] > last && rec.Delivered[0] <= now {
+				last = rec.Delivered[0]
+			}
+		}
+	}
+	return now - last
+}
+
+// pathDeadEvidence: was any datagram, in either direction, lost / damaged / black-holed during the window
+// [f-p-1s, f], or was the last datagram sent before that window (per direction) lost? If not, the path was
+// demonstrably alive and an idle timeout cannot be blamed on the network.
+func (w *World) pathDeadEvidence(f, p int64) bool {
+	w.mu.Lock()
+	defer w.mu.Unlock()
+	from := f - p - int64(time.Second)
+	bad := func(r *DgramRec) bool {
+		return len(r.Delivered) == 0 || r.Damaged || strings.Contains(r.Fate, "delay")
+	}
+	for d := 0; d < 2; d++ {
+		var before *DgramRec
+		for _, r := range w.Log[d] {
+			if r.SentNS > f {
+				break
+			}
+			if r.SentNS < from {
+				before = r
+				continue
+			}
+			if bad(r) {
+				return true
+			}
+		}
+		if before != nil && bad(before) {
+			return true
+		}
+	}
+	return false
 }
 
 func (w *World) lastFaultNS() int64 {
@@ -757,4 +837,44 @@ func wErrName(code uint64) string {
 		return fmt.Sprintf("CRYPTO_ERROR_%#x", code)
 	}
 	return fmt.Sprintf("%#x", code)
+}
+
+// wKnownC12 recognises the known C12 finding "a spec-driven client enforces the limits of its Config, not the ones
+// its spec advertises": the error was raised by the spec-driven client, is one of the three limit errors, and the
+// limit the client's Config yields is indeed below what its ClientHello advertised (read off the wire).
+func wKnownC12(w *World, cfg *WConfig, who int, code uint64) string {
+	if who != 0 || cfg.Client == "" || cfg.Client == "plain" || cfg.Client == "unil" {
+		return ""
+	}
+	var tps []TapTP
+	for _, c := range w.Tap.Conns {
+		if !c.Shadow && c.CH != nil && c.CH.HasTP {
+			tps = c.CH.TPs
+		}
+	}
+	if tps == nil {
+		return ""
+	}
+	or := func(v, def uint64) uint64 {
+		if v == 0 {
+			return def
+		}
+		return v
+	}
+	switch code {
+	case 3:
+		advS := max(tapTPUint(tps, 5, 0), tapTPUint(tps, 6, 0), tapTPUint(tps, 7, 0))
+		if or(cfg.Win[0], 512<<10) < advS || or(cfg.Win[1], 768<<10) < tapTPUint(tps, 4, 0) {
+			return "KF-C12-flow-control-window"
+		}
+	case 4:
+		if uint64(or(uint64(cfg.MaxStreams[0]), 100)) < tapTPUint(tps, 8, 0) || uint64(or(uint64(cfg.MaxUniStreams[0]), 100)) < tapTPUint(tps, 9, 0) {
+			return "KF-C12-stream-count"
+		}
+	case 7:
+		if !cfg.Datagrams[0] && tapTPUint(tps, 0x20, 0) > 0 {
+			return "KF-C12-datagram-support"
+		}
+	}
+	return ""
 }
